@@ -20,8 +20,15 @@ _BADREP = [0]     # which representative of the specification's Invalid item: 0 
 VIAS = ["assign", "assign", "assign", "ctor", "deepcopy", "clone", "copy_traits", "pickle", "share"]
 
 
+_INST = [0]       # 1: the strict inner trait is Instance("harness.drivers.valclasses.Cell") - a class given BY NAME, resolved
+                  # at its first use - and the valid items are Cell objects (list and nested-list kinds)
+
+
 def conc_item(x):
     if x in VALID:
+        if _INST[0]:
+            from .valclasses import Cell
+            return Cell(x)
         return x
     if x in (11, 12, 13):
         return str(x - 10)
@@ -34,6 +41,8 @@ def conc_item(x):
 
 
 def proj(x):
+    if type(x).__name__ == "Cell":
+        return x.n
     return x if type(x) is int else 777
 
 
@@ -59,12 +68,13 @@ _SHAPE = [0]      # owner shape: 0 an ordinary HasTraits class, 1 a class whose 
 
 
 def get_class(cfg):
-    key = json.dumps(cfg, sort_keys=True) + "|%d" % _SHAPE[0]
+    key = json.dumps(cfg, sort_keys=True) + "|%d|%d" % (_SHAPE[0], _INST[0])
     if key in _classes:
         return _classes[key]
     build.install()
     from traits.api import HasTraits, List, Dict, Set, CInt, Int
-    T = lambda m: CInt if m == "coerce" else Int
+    from traits.api import Instance
+    T = lambda m: CInt if m == "coerce" else (Instance("harness.drivers.valclasses.Cell") if _INST[0] else Int)
     mx = lambda hi: sys.maxsize if hi == INF else hi
     kind = cfg["kind"]
     if kind == "list":
@@ -122,9 +132,9 @@ def establish(cls, kind, pre, via):
 
 def conc_pre(kind, pre):
     if kind == "list":
-        return list(pre)
+        return [conc_item(x) for x in pre] if _INST[0] else list(pre)
     if kind == "listlist":
-        return [list(x) for x in pre]
+        return [[conc_item(y) for y in x] for x in pre] if _INST[0] else [list(x) for x in pre]
     if kind == "dict":
         return dict((k, v) for k, v in pre)
     if kind == "set":
@@ -246,14 +256,21 @@ class PreStateError(Exception):
     """the pre-state is not a legal value of the trait (only after an already reported violation)"""
 
 
-def execute(cfg, pre, op, sub, a, xs, cs, via="assign", badrep=0, shape=0):
+def execute(cfg, pre, op, sub, a, xs, cs, via="assign", badrep=0, shape=0, inst=0):
     _BADREP[0] = badrep
     _SHAPE[0] = shape
+    _INST[0] = inst if (cfg["kind"] in ("list", "listlist") and cfg.get("vm") == "strict") else 0
+    if _INST[0] and badrep != 0:
+        _BADREP[0] = badrep = 0        # (None and Undefined are not invalid for an Instance trait: only the text stands for Invalid)
     try:
         r = _execute(cfg, pre, op, sub, a, xs, cs, via)
     finally:
         _BADREP[0] = 0
         _SHAPE[0] = 0
+        inst_used = _INST[0]
+        _INST[0] = 0
+    if inst_used:
+        r["inst"] = 1
     r["badrep"] = badrep
     if shape:
         r["shape"] = shape
@@ -270,7 +287,13 @@ def _execute(cfg, pre, op, sub, a, xs, cs, via):
     try:
         obj = establish(cls, kind, pre, via)
     except TraitError:
-        raise PreStateError(pre)
+        if via != "assign":
+            raise PreStateError(pre)
+        # a LEGAL value of the trait was refused by a plain assignment: a verdict for the judge (no specification outcome has
+        # this exception class), not a failure of the machinery
+        return {"cfg": cfg, "kind": kind, "op": op, "sub": sub, "a": list(a), "xs": xs, "cs": cs, "pre": pre, "post": pre,
+                "exc": "LegalValueRefused", "ret": [NONE] if kind == "dict" else NONE, "nitems": 0, "nchange": 0, "evs": [],
+                "via": via, "viapre": pre}
     viapre = proj_val(kind, obj.xs)
     if via == "assign" and viapre != pre:
         raise MachineryError("cannot establish pre-state %r for %r: got %r" % (pre, cfg, viapre))
@@ -331,7 +354,8 @@ def _execute(cfg, pre, op, sub, a, xs, cs, via):
     if kind == "list":
         from ..drivers.C05 import proj_ev
         for e in items_events:
-            evs.append(proj_ev(e.index, e.removed, e.added))
+            evs.append(proj_ev(e.index, [proj(x) for x in e.removed] if isinstance(e.removed, list) else e.removed,
+                               [proj(x) for x in e.added] if isinstance(e.added, list) else e.added))
     if kind == "dict":
         pret = ret if isinstance(ret, list) else [NONE]
     elif kind == "set":
@@ -395,6 +419,15 @@ def case_fn(st, rep):
             return None
         r = execute(cfg, pre, last["op"], last["sub"], list(last["a"]), xs, cs, shape=1)
         return {"fail": None, "line": r, "sample": r}
+    if rep == 3:
+        # the inner trait is an Instance whose class is given by name: list kinds, a quarter of the cases
+        import zlib
+        if cfg["kind"] not in ("list", "listlist") or cfg.get("vm") != "strict" or last["op"] in ("default", "reset"):
+            return None
+        if zlib.crc32(json.dumps([cfg, pre, last["op"], list(last["a"]), "i"], sort_keys=True).encode()) % 4:
+            return None
+        r = execute(cfg, pre, last["op"], last["sub"], list(last["a"]), xs, cs, inst=1)
+        return {"fail": None, "line": r, "sample": r}
     r = execute(cfg, pre, last["op"], last["sub"], list(last["a"]), xs, cs, badrep=rep)
     return {"fail": None, "line": r, "sample": r}
 
@@ -455,6 +488,7 @@ def history_lines(seed, ntraces, steps):
     for t in range(ntraces):
         cfg = rnd.choice(cfgs)
         hshape = 1 if rnd.random() < 0.25 else 0
+        hinst = 1 if rnd.random() < 0.3 else 0
         kind = cfg["kind"]
         if kind == "list":
             n0 = rnd.randint(cfg["lo"], min(cfg["hi"], cfg["lo"] + 3))
@@ -537,7 +571,7 @@ def history_lines(seed, ntraces, steps):
                 else:
                     op, sub, a = "delitem", "outer", [rnd.choice([1, 2, 3]), 0, 0]
             try:
-                r = execute(cfg, cur, op, sub, a, xs, cs, via=rnd.choice(VIAS), badrep=rnd.choice([0, 0, 1, 2]), shape=hshape)
+                r = execute(cfg, cur, op, sub, a, xs, cs, via=rnd.choice(VIAS), badrep=rnd.choice([0, 0, 1, 2]), shape=hshape, inst=hinst)
             except PreStateError:
                 break       # the previous step left an illegal value; the judge rejects that step
             r["tid"] = t
@@ -571,7 +605,7 @@ def run(rep, tier, seed):
                           heap="6g" if tier == "quick" else "16g")
         rep.add_tlc("ContainerTraitsMC_cases", res)
         trace = os.path.join(work, "trace.ndjson")
-        tot = cases.run_dump_cases(dump + ".dump", case_fn, out_ndjson=trace, reps=3)
+        tot = cases.run_dump_cases(dump + ".dump", case_fn, out_ndjson=trace, reps=4)
         os.unlink(dump + ".dump")
         if tot["ncases"] == 0:
             raise MachineryError("no cases in dump")
